@@ -226,7 +226,7 @@ def gen_case(rng):
     return dict(
         pid=rng.choice([50, 7, 4194303]),
         maps=maps, opt=opt, ropt=ropt,
-        rollup=rng.choice(["present", "present", "enoent", "esrch"]),
+        rollup=rng.choice(["present", "present", "enoent", "esrch", "esrch_on_read"]),
         statm=gen_statm(rng), memtotal_kb=total,
         memtypes=rng.sample(FULL_FIELDS, rng.choice([2, 3, 10])),
         bad_memtype=rng.choice(BAD_MEMTYPES),
@@ -387,7 +387,8 @@ def run_case(case, acc):
     viols = []
 
     def set_rollup(mode):
-        p.smaps_rollup = {"present": rollup_bytes, "enoent": None, "esrch": errno.ESRCH}[mode]
+        p.smaps_rollup = {"present": rollup_bytes, "enoent": None, "esrch": errno.ESRCH,
+                          "esrch_on_read": ("read_err", errno.ESRCH)}[mode]
 
     vk = vkernel.VK()
     vk.table = t
@@ -446,7 +447,7 @@ def run_case(case, acc):
                 ok, fi = call("memory_full_info", pr.memory_full_info)
                 if not ok:
                     continue
-                src = "rollup" if rollup_read(since) else "smaps"
+                src = "rollup" if (rollup_read(since) and mode != "esrch_on_read") else "smaps"
                 acc.count("full_info_from_" + src)
                 results[mode] = tuple(getattr(fi, f, None) for f in ("uss", "pss", "swap"))
                 check_fields(f"memory_full_info[{mode}]", fi, exp_full, FULL_FIELDS,
@@ -563,7 +564,7 @@ def corner_cases():
                                  inode=77 if name and name.startswith("/") else 0, path=name, kb=kb))
                 addr += kb["Size"] * 1024 + 4096
             out.append(dict(base, maps=maps, opt=opt, ropt=list(ROLLUP_ONLY) if opt else [],
-                            rollup=["present", "enoent", "esrch"][i % 3]))
+                            rollup=["present", "enoent", "esrch", "esrch_on_read"][i % 4]))
     for k in OPTIONAL:
         kb = gen_kb(rng, [k])
         out.append(dict(base, opt=[k], maps=[
